@@ -350,6 +350,18 @@ def _short(x):
     return repr(conv(x))[:400]
 
 
+_JUDGES = ("oracle", "corr")
+
+
+def judge(oracle, corr):
+    """property oracle first (a failing input), then the correspondence with the Lean model."""
+    for name in _JUDGES:
+        f = oracle() if name == "oracle" else corr()
+        if f:
+            return f
+    return None
+
+
 # --------------------------------------------------------------------------
 # running one plot variant with the archive and with df=
 
@@ -462,41 +474,50 @@ def run_grid(case):
         if fail:
             return fail
         # ---- oracle: the property read on the artists
-        if one_d:
-            want_shape, xdim, ydim = (1, dims[0]), 0, None
-        elif tr:
-            want_shape, xdim, ydim = (dims[0], dims[1]), 1, 0
-        else:
-            want_shape, xdim, ydim = (dims[1], dims[0]), 0, 1
-        got_shape = (len(obs["colors"]), len(obs["colors"][0]) if obs["colors"] else 0)
-        if got_shape != want_shape:
-            return Failure("oracle", f"{where}: colour matrix has shape {got_shape}, archive cells {want_shape}")
-        for r in range(want_shape[0]):
-            for c in range(want_shape[1]):
-                cell = (c,) if one_d else ((r, c) if tr else (c, r))
-                if obs["colors"][r][c] != stored.get(cell):
-                    return Failure("oracle", f"{where}: drawn cell row={r} col={c} shows "
-                                   f"{_short(obs['colors'][r][c])}, archive cell {cell} stores "
-                                   f"{_short(stored.get(cell))}")
-        if obs["xe"] != bnd[xdim]:
-            return Failure("oracle", f"{where}: x edges {_short(obs['xe'])} != boundaries[{xdim}]")
-        if obs["ye"] != ([Fraction(0), Fraction(1)] if one_d else bnd[ydim]):
-            return Failure("oracle", f"{where}: y edges {_short(obs['ye'])} != boundaries[{ydim}]")
-        if obs["xlim"] != (lo[xdim], hi[xdim]) or (not one_d and obs["ylim"] != (lo[ydim], hi[ydim])):
-            return Failure("oracle", f"{where}: axis limits {_short(obs['xlim'])} {_short(obs['ylim'])} are not "
-                           f"the archive bounds of the plotted dimensions")
-        msg = clim_check(obs["clim"], vmin, vmax, objs, where)
-        if msg:
-            return Failure("oracle", msg)
+        def oracle():
+            if one_d:
+                want_shape, xdim, ydim = (1, dims[0]), 0, None
+            elif tr:
+                want_shape, xdim, ydim = (dims[0], dims[1]), 1, 0
+            else:
+                want_shape, xdim, ydim = (dims[1], dims[0]), 0, 1
+            got_shape = (len(obs["colors"]), len(obs["colors"][0]) if obs["colors"] else 0)
+            if got_shape != want_shape:
+                return Failure("oracle", f"{where}: colour matrix has shape {got_shape}, archive cells {want_shape}")
+            for r in range(want_shape[0]):
+                for c in range(want_shape[1]):
+                    cell = (c,) if one_d else ((r, c) if tr else (c, r))
+                    if obs["colors"][r][c] != stored.get(cell):
+                        return Failure("oracle", f"{where}: drawn cell row={r} col={c} shows "
+                                       f"{_short(obs['colors'][r][c])}, archive cell {cell} stores "
+                                       f"{_short(stored.get(cell))}")
+            if obs["xe"] != bnd[xdim]:
+                return Failure("oracle", f"{where}: x edges {_short(obs['xe'])} != boundaries[{xdim}]")
+            if obs["ye"] != ([Fraction(0), Fraction(1)] if one_d else bnd[ydim]):
+                return Failure("oracle", f"{where}: y edges {_short(obs['ye'])} != boundaries[{ydim}]")
+            if obs["xlim"] != (lo[xdim], hi[xdim]) or (not one_d and obs["ylim"] != (lo[ydim], hi[ydim])):
+                return Failure("oracle", f"{where}: axis limits {_short(obs['xlim'])} {_short(obs['ylim'])} are not "
+                               f"the archive bounds of the plotted dimensions")
+            msg = clim_check(obs["clim"], vmin, vmax, objs, where)
+            if msg:
+                return Failure("oracle", msg)
+            return None
+
         # ---- correspondence
-        req = (f"grid dims={','.join(map(str, dims))} b={'|'.join(ql(b) for b in bnd)} tr={int(tr)} "
-               f"vmin={vstr(vmin)} vmax={vstr(vmax)} el={el_str(data)}")
-        if not one_d:
-            req += f" lo={ql(lo)} hi={ql(hi)}"
-        m = model_heatmap(drv().ask(req))
-        if isinstance(m, str):
-            return Failure("corr", f"{where}: model answered {m}")
-        f = cmp_fields(obs, m, ["colors", "xe", "ye"] + ([] if one_d else ["xlim", "ylim"]), where)
+        def corr():
+            req = (f"grid dims={','.join(map(str, dims))} b={'|'.join(ql(b) for b in bnd)} tr={int(tr)} "
+                   f"vmin={vstr(vmin)} vmax={vstr(vmax)} el={el_str(data)}")
+            if not one_d:
+                req += f" lo={ql(lo)} hi={ql(hi)}"
+            m = model_heatmap(drv().ask(req))
+            if isinstance(m, str):
+                return Failure("corr", f"{where}: model answered {m}")
+            f = cmp_fields(obs, m, ["colors", "xe", "ye"] + ([] if one_d else ["xlim", "ylim"]), where)
+            if f:
+                return f
+            return None
+
+        f = judge(oracle, corr)
         if f:
             return f
     return None
@@ -551,33 +572,42 @@ def run_cvt1(case):
         if fail:
             return fail
         # ---- oracle
-        xe, colors = obs["xe"], obs["colors"]
-        if len(colors) != 1 or len(colors[0]) != len(cs) or len(xe) != len(cs) + 1:
-            return Failure("oracle", f"{where}: {len(colors)} rows / {len(xe)} edges for {len(cs)} cells")
-        if xe[0] != F(a.lower_bounds[0]) or xe[-1] != F(a.upper_bounds[0]) or obs["ye"] != [0, 1]:
-            return Failure("oracle", f"{where}: outer edges are not the archive bounds")
-        srt = sorted(cs)
-        for p in range(len(cs)):
-            inside = [i for i, c in enumerate(cs) if xe[p] <= c <= xe[p + 1]]
-            if len(inside) != 1:
-                return Failure("oracle", f"{where}: drawn cell {p} [{float(xe[p])},{float(xe[p+1])}] contains "
-                               f"centroids {inside}")
-            if p + 1 < len(cs) and xe[p + 1] != (srt[p] + srt[p + 1]) / 2:
-                return Failure("oracle", f"{where}: edge {p+1} is not the midpoint of neighbouring centroids")
-            if colors[0][p] != stored.get(inside[0]):
-                return Failure("oracle", f"{where}: drawn cell {p} (centroid {inside[0]}) shows "
-                               f"{_short(colors[0][p])}, archive stores {_short(stored.get(inside[0]))}")
-        if obs["xlim"] != (F(a.lower_bounds[0]), F(a.upper_bounds[0])):
-            return Failure("oracle", f"{where}: x limits are not the archive bounds")
-        msg = clim_check(obs["clim"], vmin, vmax, objs, where)
-        if msg:
-            return Failure("oracle", msg)
+        def oracle():
+            xe, colors = obs["xe"], obs["colors"]
+            if len(colors) != 1 or len(colors[0]) != len(cs) or len(xe) != len(cs) + 1:
+                return Failure("oracle", f"{where}: {len(colors)} rows / {len(xe)} edges for {len(cs)} cells")
+            if xe[0] != F(a.lower_bounds[0]) or xe[-1] != F(a.upper_bounds[0]) or obs["ye"] != [0, 1]:
+                return Failure("oracle", f"{where}: outer edges are not the archive bounds")
+            srt = sorted(cs)
+            for p in range(len(cs)):
+                inside = [i for i, c in enumerate(cs) if xe[p] <= c <= xe[p + 1]]
+                if len(inside) != 1:
+                    return Failure("oracle", f"{where}: drawn cell {p} [{float(xe[p])},{float(xe[p+1])}] contains "
+                                   f"centroids {inside}")
+                if p + 1 < len(cs) and xe[p + 1] != (srt[p] + srt[p + 1]) / 2:
+                    return Failure("oracle", f"{where}: edge {p+1} is not the midpoint of neighbouring centroids")
+                if colors[0][p] != stored.get(inside[0]):
+                    return Failure("oracle", f"{where}: drawn cell {p} (centroid {inside[0]}) shows "
+                                   f"{_short(colors[0][p])}, archive stores {_short(stored.get(inside[0]))}")
+            if obs["xlim"] != (F(a.lower_bounds[0]), F(a.upper_bounds[0])):
+                return Failure("oracle", f"{where}: x limits are not the archive bounds")
+            msg = clim_check(obs["clim"], vmin, vmax, objs, where)
+            if msg:
+                return Failure("oracle", msg)
+            return None
+
         # ---- correspondence
-        m = model_heatmap(drv().ask(f"cvt1 lo={q(a.lower_bounds[0])} hi={q(a.upper_bounds[0])} cs={ql(cs)} "
-                                    f"vmin={vstr(vmin)} vmax={vstr(vmax)} el={el_str(data)}"))
-        if isinstance(m, str):
-            return Failure("corr", f"{where}: model answered {m}")
-        f = cmp_fields(obs, m, ["colors", "xe", "ye"], where)
+        def corr():
+            m = model_heatmap(drv().ask(f"cvt1 lo={q(a.lower_bounds[0])} hi={q(a.upper_bounds[0])} cs={ql(cs)} "
+                                        f"vmin={vstr(vmin)} vmax={vstr(vmax)} el={el_str(data)}"))
+            if isinstance(m, str):
+                return Failure("corr", f"{where}: model answered {m}")
+            f = cmp_fields(obs, m, ["colors", "xe", "ye"], where)
+            if f:
+                return f
+            return None
+
+        f = judge(oracle, corr)
         if f:
             return f
     return None
@@ -648,7 +678,8 @@ def run_cvt2(case):
         obs, fail = call_both(cvt_archive_heatmap, a, v, kw, read_poly, where, vmin, vmax)
         if fail:
             return fail
-        # ---- ORACLE for the part that is not modelled (qhull polygons) + colours
+        # ---- ORACLE ONLY (not modelled: qhull polygons): every polygon holds exactly one centroid,
+        # every centroid is covered
         pts = a.centroids[:, ::-1] if tr else a.centroids
         e_lo = min(objs) if vmin is None else vmin
         e_hi = max(objs) if vmax is None else vmax
@@ -657,46 +688,60 @@ def run_cvt2(case):
             e_lo, e_hi = e_lo - 0.01, e_hi + 0.01
         covered = {}
         for pi, (verts, fc) in enumerate(zip(obs["paths"], obs["fc"])):
-            inside = [i for i in range(n) if Path(np.asarray(verts)).contains_point(pts[i])]
+            verts = np.asarray(verts, dtype=float)
+            if verts.ndim != 2 or len(verts) < 3:
+                return Failure("oracle", f"{where}: polygon {pi} is degenerate ({len(verts)} vertices)")
+            inside = [i for i in range(n) if Path(verts).contains_point(pts[i])]
             if len(inside) != 1:
                 return Failure("oracle", f"{where}: polygon {pi} contains centroids {inside} (must be exactly one)")
-            i = inside[0]
-            if i in covered:
-                return Failure("oracle", f"{where}: centroid {i} lies in two polygons")
-            covered[i] = fc
-            if i in stored:
-                t = min(1.0, max(0.0, (stored[i] - e_lo) / (e_hi - e_lo)))
-                want = cmap(t)
-                if not np.allclose(fc, want, atol=0.03 if degenerate else 1e-9, rtol=0):
-                    return Failure("oracle", f"{where}: polygon of centroid {i} has face colour {fc}, the stored "
-                                   f"objective {stored[i]} maps to {want}")
-            elif fc[3] != 0.0:
-                return Failure("oracle", f"{where}: polygon of empty cell {i} is not blank: {fc}")
+            if inside[0] in covered:
+                return Failure("oracle", f"{where}: centroid {inside[0]} lies in two polygons")
+            covered[inside[0]] = fc
         if set(covered) != set(range(n)):
             return Failure("oracle", f"{where}: centroids without a polygon: {sorted(set(range(n)) - set(covered))}")
-        xd, yd = (1, 0) if tr else (0, 1)
-        if obs["xlim"] != (lo[xd], hi[xd]) or obs["ylim"] != (lo[yd], hi[yd]):
-            return Failure("oracle", f"{where}: axis limits are not the archive bounds of the plotted dimensions")
-        if obs["clim"] is not None:
-            want = (F(e_lo), F(e_hi))
-            if obs["clim"] != want:
-                return Failure("oracle", f"{where}: colour-bar limits {_short(obs['clim'])} != {_short(want)}")
+
+        # ---- oracle: colours, blanks, limits
+        def oracle():
+            for i, fc in sorted(covered.items()):
+                if i in stored:
+                    t = min(1.0, max(0.0, (stored[i] - e_lo) / (e_hi - e_lo)))
+                    want = cmap(t)
+                    if not np.allclose(fc, want, atol=0.03 if degenerate else 1e-9, rtol=0):
+                        return Failure("oracle", f"{where}: polygon of centroid {i} has face colour {fc}, the stored "
+                                       f"objective {stored[i]} maps to {want}")
+                elif fc[3] != 0.0:
+                    return Failure("oracle", f"{where}: polygon of empty cell {i} is not blank: {fc}")
+            xd, yd = (1, 0) if tr else (0, 1)
+            if obs["xlim"] != (lo[xd], hi[xd]) or obs["ylim"] != (lo[yd], hi[yd]):
+                return Failure("oracle", f"{where}: axis limits are not the archive bounds of the plotted dimensions")
+            if obs["clim"] is not None:
+                want = (F(e_lo), F(e_hi))
+                if obs["clim"] != want:
+                    return Failure("oracle", f"{where}: colour-bar limits {_short(obs['clim'])} != {_short(want)}")
+            return None
+
         # ---- correspondence on the modelled part: colour assignment per centroid, limits
-        line = drv().ask(f"cvt2 cells={n} vmin={vstr(vmin)} vmax={vstr(vmax)} el={el_str(data)}")
-        if line.startswith("err"):
-            return Failure("corr", f"{where}: model answered {line}")
-        d = kvs(line)
-        mcells = parse_optlist(d["cells"])
-        mclim = parse_pair(d["clim"])
-        for i in range(n):
-            fc = covered[i]
-            if mcells[i] is None:
-                if fc[3] != 0.0:
-                    return Failure("corr", f"{where}: centroid {i} impl colour {fc}, model blank")
-            elif not np.allclose(fc, cmap(float(mcells[i])), atol=0.03 if degenerate else 1e-9, rtol=0):
-                return Failure("corr", f"{where}: centroid {i} impl colour {fc}, model t={float(mcells[i])}")
-        if not clim_corr(obs["clim"], mclim, tol=Fraction(1, 10**12) if degenerate else None):
-            return Failure("corr", f"{where}: clim impl={_short(obs['clim'])} model={_short(mclim)}")
+        def corr():
+            line = drv().ask(f"cvt2 cells={n} vmin={vstr(vmin)} vmax={vstr(vmax)} el={el_str(data)}")
+            if line.startswith("err"):
+                return Failure("corr", f"{where}: model answered {line}")
+            d = kvs(line)
+            mcells = parse_optlist(d["cells"])
+            mclim = parse_pair(d["clim"])
+            for i in range(n):
+                fc = covered[i]
+                if mcells[i] is None:
+                    if fc[3] != 0.0:
+                        return Failure("corr", f"{where}: centroid {i} impl colour {fc}, model blank")
+                elif not np.allclose(fc, cmap(float(mcells[i])), atol=0.03 if degenerate else 1e-9, rtol=0):
+                    return Failure("corr", f"{where}: centroid {i} impl colour {fc}, model t={float(mcells[i])}")
+            if not clim_corr(obs["clim"], mclim, tol=Fraction(1, 10**12) if degenerate else None):
+                return Failure("corr", f"{where}: clim impl={_short(obs['clim'])} model={_short(mclim)}")
+            return None
+
+        f = judge(oracle, corr)
+        if f:
+            return f
     return None
 
 
@@ -752,30 +797,39 @@ def run_sliding(case):
             return fail
         xd, yd = (1, 0) if tr else (0, 1)
         # ---- oracle
-        if obs["off"] != [(m[xd], m[yd]) for m in meas]:
-            return Failure("oracle", f"{where}: marker positions are not the stored measures "
-                           f"(x = measure {xd}, y = measure {yd}) in data() order")
-        if obs["c"] != [F(o) for o in objs]:
-            return Failure("oracle", f"{where}: marker colour array is not the stored objectives")
-        if v["lw"] > 0:
-            if [x for x, _ in obs["vert"]] != bnd[xd] or [y for y, _ in obs["horiz"]] != bnd[yd]:
-                return Failure("oracle", f"{where}: boundary lines are not the boundaries of the plotted dimensions: "
-                               f"vertical at {_short([x for x, _ in obs['vert']])}, boundaries[{xd}]="
-                               f"{_short(bnd[xd])}")
-            if any(s != (lo[yd], hi[yd]) for _, s in obs["vert"]) or \
-                    any(s != (lo[xd], hi[xd]) for _, s in obs["horiz"]):
-                return Failure("oracle", f"{where}: boundary lines do not span the archive bounds")
-        elif obs["vert"] or obs["horiz"]:
-            return Failure("oracle", f"{where}: boundary lines drawn with boundary_lw=0")
-        if obs["xlim"] != (lo[xd], hi[xd]) or obs["ylim"] != (lo[yd], hi[yd]):
-            return Failure("oracle", f"{where}: axis limits are not the archive bounds of the plotted dimensions")
-        msg = clim_check(obs["clim"], vmin, vmax, objs, where)
-        if msg:
-            return Failure("oracle", msg)
+        def oracle():
+            if obs["off"] != [(m[xd], m[yd]) for m in meas]:
+                return Failure("oracle", f"{where}: marker positions are not the stored measures "
+                               f"(x = measure {xd}, y = measure {yd}) in data() order")
+            if obs["c"] != [F(o) for o in objs]:
+                return Failure("oracle", f"{where}: marker colour array is not the stored objectives")
+            if v["lw"] > 0:
+                if [x for x, _ in obs["vert"]] != bnd[xd] or [y for y, _ in obs["horiz"]] != bnd[yd]:
+                    return Failure("oracle", f"{where}: boundary lines are not the boundaries of the plotted dimensions: "
+                                   f"vertical at {_short([x for x, _ in obs['vert']])}, boundaries[{xd}]="
+                                   f"{_short(bnd[xd])}")
+                if any(s != (lo[yd], hi[yd]) for _, s in obs["vert"]) or \
+                        any(s != (lo[xd], hi[xd]) for _, s in obs["horiz"]):
+                    return Failure("oracle", f"{where}: boundary lines do not span the archive bounds")
+            elif obs["vert"] or obs["horiz"]:
+                return Failure("oracle", f"{where}: boundary lines drawn with boundary_lw=0")
+            if obs["xlim"] != (lo[xd], hi[xd]) or obs["ylim"] != (lo[yd], hi[yd]):
+                return Failure("oracle", f"{where}: axis limits are not the archive bounds of the plotted dimensions")
+            msg = clim_check(obs["clim"], vmin, vmax, objs, where)
+            if msg:
+                return Failure("oracle", msg)
+            return None
+
         # ---- correspondence
-        line = drv().ask(f"scatter tr={int(tr)} lo={ql(lo)} hi={ql(hi)} b={'|'.join(ql(b) for b in bnd)} "
-                         f"vmin={vstr(vmin)} vmax={vstr(vmax)} el={el_str(data)}")
-        f = cmp_scatter(obs, line, where, lines=v["lw"] > 0, lims=True)
+        def corr():
+            line = drv().ask(f"scatter tr={int(tr)} lo={ql(lo)} hi={ql(hi)} b={'|'.join(ql(b) for b in bnd)} "
+                             f"vmin={vstr(vmin)} vmax={vstr(vmax)} el={el_str(data)}")
+            f = cmp_scatter(obs, line, where, lines=v["lw"] > 0, lims=True)
+            if f:
+                return f
+            return None
+
+        f = judge(oracle, corr)
         if f:
             return f
     return None
@@ -844,30 +898,39 @@ def run_prox(case):
             return fail
         xd, yd = (1, 0) if tr else (0, 1)
         # ---- oracle
-        if obs["off"] != [(m[xd], m[yd]) for m in meas]:
-            return Failure("oracle", f"{where}: marker positions are not the stored measures "
-                           f"(x = measure {xd}, y = measure {yd}) in data() order")
-        if obs["c"] != [F(o) for o in objs]:
-            return Failure("oracle", f"{where}: marker colour array is not the stored objectives")
-        if obs["vert"] or obs["horiz"]:
-            return Failure("oracle", f"{where}: unexpected line collections")
-        if v["bounds"]:
-            if obs["xlim"] != (F(blo[xd]), F(bhi[xd])) or obs["ylim"] != (F(blo[yd]), F(bhi[yd])):
-                return Failure("oracle", f"{where}: axis limits are not the given bounds of the plotted dimensions")
-        for x, y in obs["off"]:
-            if not (obs["xlim"][0] <= x <= obs["xlim"][1] and obs["ylim"][0] <= y <= obs["ylim"][1]):
-                return Failure("oracle", f"{where}: a marker lies outside the axis limits")
-        msg = clim_check(obs["clim"], vmin, vmax, objs, where)
-        if msg:
-            return Failure("oracle", msg)
+        def oracle():
+            if obs["off"] != [(m[xd], m[yd]) for m in meas]:
+                return Failure("oracle", f"{where}: marker positions are not the stored measures "
+                               f"(x = measure {xd}, y = measure {yd}) in data() order")
+            if obs["c"] != [F(o) for o in objs]:
+                return Failure("oracle", f"{where}: marker colour array is not the stored objectives")
+            if obs["vert"] or obs["horiz"]:
+                return Failure("oracle", f"{where}: unexpected line collections")
+            if v["bounds"]:
+                if obs["xlim"] != (F(blo[xd]), F(bhi[xd])) or obs["ylim"] != (F(blo[yd]), F(bhi[yd])):
+                    return Failure("oracle", f"{where}: axis limits are not the given bounds of the plotted dimensions")
+            for x, y in obs["off"]:
+                if not (obs["xlim"][0] <= x <= obs["xlim"][1] and obs["ylim"][0] <= y <= obs["ylim"][1]):
+                    return Failure("oracle", f"{where}: a marker lies outside the axis limits")
+            msg = clim_check(obs["clim"], vmin, vmax, objs, where)
+            if msg:
+                return Failure("oracle", msg)
+            return None
+
         # ---- correspondence
-        if v["bounds"]:
-            lo_s, hi_s = ql(blo), ql(bhi)
-        else:
-            lo_s, hi_s = "0,0", "0,0"
-        line = drv().ask(f"scatter tr={int(tr)} lo={lo_s} hi={hi_s} vmin={vstr(vmin)} vmax={vstr(vmax)} "
-                         f"el={el_str(data)}")
-        f = cmp_scatter(obs, line, where, lines=False, lims=bool(v["bounds"]))
+        def corr():
+            if v["bounds"]:
+                lo_s, hi_s = ql(blo), ql(bhi)
+            else:
+                lo_s, hi_s = "0,0", "0,0"
+            line = drv().ask(f"scatter tr={int(tr)} lo={lo_s} hi={hi_s} vmin={vstr(vmin)} vmax={vstr(vmax)} "
+                             f"el={el_str(data)}")
+            f = cmp_scatter(obs, line, where, lines=False, lims=bool(v["bounds"]))
+            if f:
+                return f
+            return None
+
+        f = judge(oracle, corr)
         if f:
             return f
     return None
@@ -946,65 +1009,74 @@ def run_parallel(case):
         if fail:
             return fail
         # ---- oracle: what a viewer reads off the axes
-        for i, c in enumerate(cols):
-            if obs["ylims"][i] != (lo[c], hi[c]):
-                return Failure("oracle", f"{where}: axis {i} spans {_short(obs['ylims'][i])}, measure {c} has "
-                               f"bounds {float(lo[c])},{float(hi[c])}")
-        if len(obs["lines"]) != len(rows):
-            return Failure("oracle", f"{where}: {len(obs['lines'])} lines for {len(rows)} elites")
-        h0, h1 = obs["ylims"][0]
-        e_lo = F(min(objs) if vmin is None else vmin)
-        e_hi = F(max(objs) if vmax is None else vmax)
-
-        def colour_of(o):
-            t = Fraction(0) if e_lo == e_hi else min(Fraction(1), max(Fraction(0), (o - e_lo) / (e_hi - e_lo)))
-            return cmap(float(t))
-        readings = []
-        for ln in obs["lines"]:
-            rd = []
+        def oracle():
             for i, c in enumerate(cols):
-                frac = (ln["ys"][i] - h0) / (h1 - h0)
-                rd.append(lo[c] + frac * (hi[c] - lo[c]))
-            readings.append(rd)
-        expected = sorted(rows, key=lambda r: r[0]) if sort else rows
-        for j, (ln, rd) in enumerate(zip(obs["lines"], readings)):
-            cands = [r for r in rows if r[0] == expected[j][0]] if sort else [expected[j]]
-            ok = any([r[1][c] for c in cols] == rd and np.allclose(ln["rgba"][:3], colour_of(r[0])[:3],
-                                                                   atol=1e-9, rtol=0) for r in cands)
-            if not ok:
-                return Failure("oracle", f"{where}: line {j} reads measures {_short(rd)} colour "
-                               f"{[round(c, 4) for c in ln['rgba'][:3]]}; expected elite(s) "
-                               f"{_short([([r[1][c] for c in cols], r[0]) for r in cands][:3])} with colour "
-                               f"{[round(float(c), 4) for c in colour_of(cands[0][0])[:3]]}")
-        if sorted(map(tuple, readings)) != sorted(tuple(r[1][c] for c in cols) for r in rows):
-            return Failure("oracle", f"{where}: the lines are not one per stored elite")
-        if obs["clim"] is not None:
-            msg = clim_check(obs["clim"], vmin, vmax, objs, where)
-            if msg:
-                return Failure("oracle", msg)
+                if obs["ylims"][i] != (lo[c], hi[c]):
+                    return Failure("oracle", f"{where}: axis {i} spans {_short(obs['ylims'][i])}, measure {c} has "
+                                   f"bounds {float(lo[c])},{float(hi[c])}")
+            if len(obs["lines"]) != len(rows):
+                return Failure("oracle", f"{where}: {len(obs['lines'])} lines for {len(rows)} elites")
+            h0, h1 = obs["ylims"][0]
+            e_lo = F(min(objs) if vmin is None else vmin)
+            e_hi = F(max(objs) if vmax is None else vmax)
+
+            def colour_of(o):
+                t = Fraction(0) if e_lo == e_hi else min(Fraction(1), max(Fraction(0), (o - e_lo) / (e_hi - e_lo)))
+                return cmap(float(t))
+            readings = []
+            for ln in obs["lines"]:
+                rd = []
+                for i, c in enumerate(cols):
+                    frac = (ln["ys"][i] - h0) / (h1 - h0)
+                    rd.append(lo[c] + frac * (hi[c] - lo[c]))
+                readings.append(rd)
+            expected = sorted(rows, key=lambda r: r[0]) if sort else rows
+            for j, (ln, rd) in enumerate(zip(obs["lines"], readings)):
+                cands = [r for r in rows if r[0] == expected[j][0]] if sort else [expected[j]]
+                ok = any([r[1][c] for c in cols] == rd and np.allclose(ln["rgba"][:3], colour_of(r[0])[:3],
+                                                                       atol=1e-9, rtol=0) for r in cands)
+                if not ok:
+                    return Failure("oracle", f"{where}: line {j} reads measures {_short(rd)} colour "
+                                   f"{[round(c, 4) for c in ln['rgba'][:3]]}; expected elite(s) "
+                                   f"{_short([([r[1][c] for c in cols], r[0]) for r in cands][:3])} with colour "
+                                   f"{[round(float(c), 4) for c in colour_of(cands[0][0])[:3]]}")
+            if sorted(map(tuple, readings)) != sorted(tuple(r[1][c] for c in cols) for r in rows):
+                return Failure("oracle", f"{where}: the lines are not one per stored elite")
+            if obs["clim"] is not None:
+                msg = clim_check(obs["clim"], vmin, vmax, objs, where)
+                if msg:
+                    return Failure("oracle", msg)
+            return None
+
         # ---- correspondence
-        line = drv().ask(f"par los={ql(lo)} his={ql(hi)} order={'none' if order is None else ','.join(map(str, order))} "
-                         f"sort={int(sort)} vmin={vstr(vmin)} vmax={vstr(vmax)} el={el_str(data)}")
-        if line.startswith("err"):
-            return Failure("corr", f"{where}: model answered {line}")
-        d = kvs(line)
-        mlines = []
-        if d["lines"] != "-":
-            for s in d["lines"].split("|"):
-                o, t, ys = s.split(":")
-                mlines.append((Fraction(o), Fraction(t), parse_rats(ys)))
-        if len(mlines) != len(obs["lines"]):
-            return Failure("corr", f"{where}: {len(obs['lines'])} lines, model {len(mlines)}")
-        for j, ln in enumerate(obs["lines"]):
-            cands = [m for m in mlines if m[0] == mlines[j][0]] if sort else [mlines[j]]
-            if not any(m[2] == ln["ys"] and np.allclose(ln["rgba"][:3], cmap(float(m[1]))[:3], atol=1e-9, rtol=0)
-                       for m in cands):
-                return Failure("corr", f"{where}: line {j} impl ys={_short(ln['ys'])} rgba={ln['rgba'][:3]} "
-                               f"model={_short([(m[2], m[1]) for m in cands][:3])}")
-        if sorted(tuple(ln["ys"]) for ln in obs["lines"]) != sorted(tuple(m[2]) for m in mlines):
-            return Failure("corr", f"{where}: multiset of lines differs from the model")
-        if not clim_corr(obs["clim"], parse_pair(d["clim"])):
-            return Failure("corr", f"{where}: clim impl={_short(obs['clim'])} model={d['clim']}")
+        def corr():
+            line = drv().ask(f"par los={ql(lo)} his={ql(hi)} order={'none' if order is None else ','.join(map(str, order))} "
+                             f"sort={int(sort)} vmin={vstr(vmin)} vmax={vstr(vmax)} el={el_str(data)}")
+            if line.startswith("err"):
+                return Failure("corr", f"{where}: model answered {line}")
+            d = kvs(line)
+            mlines = []
+            if d["lines"] != "-":
+                for s in d["lines"].split("|"):
+                    o, t, ys = s.split(":")
+                    mlines.append((Fraction(o), Fraction(t), parse_rats(ys)))
+            if len(mlines) != len(obs["lines"]):
+                return Failure("corr", f"{where}: {len(obs['lines'])} lines, model {len(mlines)}")
+            for j, ln in enumerate(obs["lines"]):
+                cands = [m for m in mlines if m[0] == mlines[j][0]] if sort else [mlines[j]]
+                if not any(m[2] == ln["ys"] and np.allclose(ln["rgba"][:3], cmap(float(m[1]))[:3], atol=1e-9, rtol=0)
+                           for m in cands):
+                    return Failure("corr", f"{where}: line {j} impl ys={_short(ln['ys'])} rgba={ln['rgba'][:3]} "
+                                   f"model={_short([(m[2], m[1]) for m in cands][:3])}")
+            if sorted(tuple(ln["ys"]) for ln in obs["lines"]) != sorted(tuple(m[2]) for m in mlines):
+                return Failure("corr", f"{where}: multiset of lines differs from the model")
+            if not clim_corr(obs["clim"], parse_pair(d["clim"])):
+                return Failure("corr", f"{where}: clim impl={_short(obs['clim'])} model={d['clim']}")
+            return None
+
+        f = judge(oracle, corr)
+        if f:
+            return f
     return None
 
 
